@@ -59,7 +59,7 @@ Record config := mkConfig {
   fix_ii  : bool;
   fix_iii : bool }.
 
-Inductive errkind := TypeErr | ValueErr.
+Inductive errkind := TypeErr | ValueErr | ExcErr.   (* TypeError | ValueError | Exception (max_tracks, see TrackerX.v) *)
 Inductive outcome := Ok (out : list (nat * option nat)) | Raise (k : errkind).
 
 (* tracker state.  fwq: the deque(maxlen=window) of the fixed-window method,
